@@ -143,9 +143,19 @@ func (f *FeeInfo) Validate() error {
 		return fmt.Errorf("unknown fee type %T", feeType)
 	}
 
-	_, err := sdk.AccAddressFromBech32(f.Recipient)
+	recipient, err := sdk.AccAddressFromBech32(f.Recipient)
+	if err != nil {
+		return err
+	}
 
-	return err
+	// Fees are paid with a keeper level send, which does not honor the bank
+	// blocked addresses and creates a base account for an unknown recipient.
+	// The dust collector is a module account created by the first sweep.
+	if recipient.Equals(core.DustCollectorAddress) {
+		return core.ErrValidation.Wrap("recipient cannot be the dust collector module account")
+	}
+
+	return nil
 }
 
 func validateAmount(amt *FeeInfo_Amount) error {
